@@ -375,3 +375,20 @@ def fork_executor():
         cemu._ub.extend(ub)
         return ok, payload_out, units
     return execute
+
+
+def replica_executor(schedule, poplog=False):
+    """F6: each simulated worker is a separate interpreter started under another
+    PYTHONHASHSEED (schedule['replica_seeds'][worker]); the task really crosses a
+    process boundary as a pickle and runs in a fresh process image"""
+    from depsim import replicas, cemu
+
+    def execute(payload, index, worker):
+        seeds = schedule.get('replica_seeds') or [1]
+        seed = seeds[worker % len(seeds)]
+        ok, payload_out, units, trace, unraisable, ub = replicas.call(seed, payload, poplog)
+        cemu.trace.extend(trace)
+        cemu._unraisable.extend(unraisable)
+        cemu._ub.extend(ub)
+        return ok, payload_out, units
+    return execute
